@@ -73,7 +73,7 @@ const (
 )
 
 func (prop) Drive(d *core.Driver) error {
-	d.T.Rule = "programs = seeded random nests (depth <= 3, up to 4 functions) of calls, closures, deferred closures/functions/natives, native callbacks, recover forms, panics of 12 kinds (explicit values and run-time faults, one per line), Stop and Fatal; each is compiled and run with gc to obtain the expected event log, outcome, panic chain and panic lines, then run by scriggo in a worker; closure-only nests are mirrored as templates; plus scripted multi-file template scenarios with varied line padding. distinct_nontrivial counts distinct (kind, outcome, chain length, recovered-flag pattern, panic kinds) signatures of runs that ended by Stop, Fatal or an unrecovered panic"
+	d.T.Rule = "programs = seeded random nests (depth <= 3, up to 4 functions) of calls, closures, deferred closures/functions/natives, native callbacks, recover forms, panics of 12 kinds (explicit values and run-time faults, one per line), Stop and Fatal; each is compiled and run with gc to obtain the expected event log, outcome, panic chain and panic lines, then run by scriggo in a worker; closure-only nests are mirrored as templates; plus scripted multi-file template scenarios with varied line padding, plus the Env-stringer matrix (a value whose String/HTML/CSS/JS/JSON/Markdown(Env) method calls Stop or Fatal, shown in every context that consults the interface x top level, macro, imported macro, recursive macro, rendered file, using body, deferred macro while panicking, Markdown macro in HTML). distinct_nontrivial counts distinct (kind, outcome, chain length, recovered-flag pattern, panic kinds) signatures of runs that ended by Stop, Fatal or an unrecovered panic"
 	d.T.Assumptions = []string{
 		"the gc toolchain pinned by env.sh implements Go's panic/recover semantics and prints the chain of active panics (crash header) and their frames (traceback) correctly",
 		"Env.Stop/Env.Fatal are modelled in the gc reference by ending the process, which is their documented effect (no deferred call runs)",
@@ -143,6 +143,9 @@ func (prop) Drive(d *core.Driver) error {
 	}
 	sc := scenarios(d.Rand("scenarios"), d.N(6, 60))
 	cases = append(cases, sc...)
+	es := envShowCases(int(d.Seed % 4))
+	cases = append(cases, es...)
+	d.T.Set("env_stringer_show_cases", len(es))
 	d.T.Set("programs", nProg)
 	d.T.Set("template_mirrors", (nProg+2)/3)
 	d.T.Set("scenario_cases", len(sc))
@@ -383,6 +386,9 @@ func (prop) Work(c core.Case) core.Result {
 			return fail("%d event(s) recorded after Stop was called", log.AfterStop)
 		}
 		res.Sigs = append(res.Sigs, core.SigJoin(cd.Kind, "stop", fmt.Sprint(len(exp.Events))))
+		if cd.Kind == "scenario" {
+			res.Sigs = append(res.Sigs, core.SigJoin("scenario", "stop", cd.Label))
+		}
 	case "fatal":
 		want := fp.FatalVals[exp.Idx%len(fp.FatalVals)]
 		if !panicked {
@@ -395,6 +401,9 @@ func (prop) Work(c core.Case) core.Result {
 			return fail("%d event(s) recorded after Fatal was called", log.AfterStop)
 		}
 		res.Sigs = append(res.Sigs, core.SigJoin(cd.Kind, "fatal", fmt.Sprint(len(exp.Events))))
+		if cd.Kind == "scenario" {
+			res.Sigs = append(res.Sigs, core.SigJoin("scenario", "fatal", cd.Label))
+		}
 	case "panic":
 		if panicked {
 			return fail("Run panicked into the host with %T: %v\n%s", pv, pv, stack)
